@@ -1,6 +1,1194 @@
-//! C18 — not built yet.
-use crate::core::Ctx;
+//! C18 — rational approximation functions return the optimal fraction they promise:
+//! `RBig::{simplest_in, next_up, next_down, nearest, is_simpler_than, simplest_from_f32,
+//! simplest_from_f64, simplest_from_float}`.
+//!
+//! Oracles (none shares code with dashu):
+//! * `brute_simplest` — the definition: scan denominators 1, 2, 3, … and take the first one that has
+//!   an integer numerator inside the interval (then the numerator of smallest magnitude);
+//! * `fast_simplest` — an independent continued-fraction recursion on `BigInt` with open/closed
+//!   end points, used where the scan is infeasible (tiny / huge floats, multi-word end points); it
+//!   is compared with the scan in the self-check and in every case where the scan is feasible;
+//! * Farey neighbours — scan of all denominators <= limit (floor/ceil per denominator);
+//! * IEEE rounding interval — written from the neighbouring floats (mid points, closed iff the
+//!   significand is even), self-checked against the hardware f64 -> f32 cast;
+//! * `refround` — the definition of the six rounding modes on an exact fraction; a candidate
+//!   "converts back" iff `refround(candidate) == f`.
+
+use crate::core::{guard, is_internal_panic, Ctx, Rec};
+use crate::h::unflatten;
+use crate::uni::*;
+use dashu_base::{Approximation, Sign};
+use dashu_float::round::{mode, ErrorBounds};
+use dashu_float::{Context, FBig, Repr};
+use dashu_int::Word;
+use dashu_ratio::RBig;
+use num_bigint::BigInt;
+use num_integer::Integer;
+use num_traits::{One, Signed, ToPrimitive, Zero};
+use std::cmp::Ordering;
+
+const P: &str = "C18";
+
+// ---------------------------------------------------------------------------------------------
+// small exact fractions on i128 (closed universes, brute-force scans)
+
+#[derive(Clone, Copy, Debug, PartialEq, Eq)]
+struct Q {
+    n: i128,
+    d: i128,
+}
+
+fn gcd128(a: i128, b: i128) -> i128 {
+    let (mut a, mut b) = (a.abs(), b.abs());
+    while b != 0 {
+        let t = a % b;
+        a = b;
+        b = t;
+    }
+    a
+}
+
+fn mul(a: i128, b: i128) -> i128 {
+    a.checked_mul(b).expect("reference overflow (i128)")
+}
+
+impl Q {
+    fn new(n: i128, d: i128) -> Q {
+        assert!(d != 0);
+        let g = gcd128(n, d).max(1);
+        let s = if d < 0 { -1 } else { 1 };
+        Q { n: s * n / g, d: s * d / g }
+    }
+    fn int(n: i128) -> Q {
+        Q { n, d: 1 }
+    }
+    fn cmp(&self, o: &Q) -> Ordering {
+        mul(self.n, o.d).cmp(&mul(o.n, self.d))
+    }
+    fn lt(&self, o: &Q) -> bool {
+        self.cmp(o) == Ordering::Less
+    }
+    fn neg(&self) -> Q {
+        Q { n: -self.n, d: self.d }
+    }
+    fn sub(&self, o: &Q) -> Q {
+        Q::new(mul(self.n, o.d) - mul(o.n, self.d), mul(self.d, o.d))
+    }
+    fn add(&self, o: &Q) -> Q {
+        Q::new(mul(self.n, o.d) + mul(o.n, self.d), mul(self.d, o.d))
+    }
+    fn big(&self) -> BQ {
+        BQ { n: BigInt::from(self.n), d: BigInt::from(self.d) }
+    }
+    fn show(&self) -> String {
+        if self.d == 1 {
+            format!("{}", self.n)
+        } else {
+            format!("{}/{}", self.n, self.d)
+        }
+    }
+}
+
+fn div_floor(a: i128, b: i128) -> i128 {
+    // b > 0
+    let q = a / b;
+    if a % b != 0 && a < 0 {
+        q - 1
+    } else {
+        q
+    }
+}
+fn div_ceil(a: i128, b: i128) -> i128 {
+    -div_floor(-a, b)
+}
+
+/// all reduced n/d with |n| <= nmax, 1 <= d <= dmax
+fn qset(nmax: i128, dmax: i128) -> Vec<Q> {
+    let mut v = vec![];
+    for d in 1..=dmax {
+        for n in -nmax..=nmax {
+            if gcd128(n, d) == 1 {
+                v.push(Q { n, d });
+            }
+        }
+    }
+    // simplest first (denominator, |numerator|, positive first): the first failing case of a
+    // sweep is then also the simplest one
+    v.sort_by_key(|q| (q.d, q.n.abs(), q.n < 0));
+    v
+}
+
+/// The definition: the first denominator d (ascending, d <= dmax) for which an integer n lies in
+/// the interval lo <(=) n/d <(=) hi; among those n the one of smallest magnitude (n and -n can only
+/// both be inside together with 0, so the "positive first" rule never decides inside an interval).
+fn brute_simplest(lo: &Q, hi: &Q, il: bool, ih: bool, dmax: i128) -> Option<Q> {
+    for d in 1..=dmax {
+        let a = mul(lo.n, d);
+        let b = mul(hi.n, d);
+        let nlo = if il { div_ceil(a, lo.d) } else { div_floor(a, lo.d) + 1 };
+        let nhi = if ih { div_floor(b, hi.d) } else { div_ceil(b, hi.d) - 1 };
+        if nlo <= nhi {
+            let n = if nlo <= 0 && 0 <= nhi {
+                0
+            } else if nlo > 0 {
+                nlo
+            } else {
+                nhi
+            };
+            return Some(Q::new(n, d));
+        }
+    }
+    None
+}
+
+// ---------------------------------------------------------------------------------------------
+// exact fractions on BigInt + the fast reference
+
+#[derive(Clone, Debug, PartialEq, Eq)]
+struct BQ {
+    n: BigInt,
+    d: BigInt,
+}
+
+impl BQ {
+    fn new(n: BigInt, d: BigInt) -> BQ {
+        assert!(!d.is_zero());
+        let g = n.gcd(&d);
+        let (mut n, mut d) = (n / &g, d / &g);
+        if d.is_negative() {
+            n = -n;
+            d = -d;
+        }
+        BQ { n, d }
+    }
+    fn cmp(&self, o: &BQ) -> Ordering {
+        (&self.n * &o.d).cmp(&(&o.n * &self.d))
+    }
+    fn neg(&self) -> BQ {
+        BQ { n: -&self.n, d: self.d.clone() }
+    }
+    fn small(&self) -> Option<Q> {
+        Some(Q { n: self.n.to_i128()?, d: self.d.to_i128()? })
+    }
+    fn show(&self) -> String {
+        let f = |x: &BigInt| if x.bits() > 200 { hex(x) } else { x.to_string() };
+        if self.d.is_one() {
+            f(&self.n)
+        } else {
+            format!("{}/{}", f(&self.n), f(&self.d))
+        }
+    }
+    /// lo <(=) self <(=) hi
+    fn within(&self, lo: &BQ, hi: &BQ, il: bool, ih: bool) -> bool {
+        let a = self.cmp(lo);
+        let b = self.cmp(hi);
+        (a == Ordering::Greater || il && a == Ordering::Equal) && (b == Ordering::Less || ih && b == Ordering::Equal)
+    }
+}
+
+/// simplest fraction in a non-empty interval of non-negative numbers, hi = None means +infinity
+fn pos_simplest(lo: &BQ, hi: Option<&BQ>, il: bool, ih: bool) -> BQ {
+    let fl = lo.n.div_floor(&lo.d);
+    let lo_int = lo.d.is_one();
+    // smallest integer inside the lower bound
+    let n = if il && lo_int { fl.clone() } else { &fl + 1 };
+    let inside = match hi {
+        None => true,
+        Some(h) => {
+            let c = (&n * &h.d).cmp(&h.n);
+            c == Ordering::Less || ih && c == Ordering::Equal
+        }
+    };
+    if inside {
+        return BQ { n, d: BigInt::one() };
+    }
+    // no integer inside: fl <= lo < hi <= fl + 1; x = fl + 1/y with y in [1/(hi-fl), 1/(lo-fl)]
+    let h = hi.unwrap();
+    // (all fractions stay reduced: subtracting an integer and taking the reciprocal keep gcd = 1)
+    let a = BQ { n: &lo.n - &fl * &lo.d, d: lo.d.clone() };
+    let b = BQ { n: &h.n - &fl * &h.d, d: h.d.clone() };
+    let ylo = BQ { n: b.d, d: b.n };
+    let yhi = if a.n.is_zero() { None } else { Some(BQ { n: a.d, d: a.n }) };
+    let y = pos_simplest(&ylo, yhi.as_ref(), ih, il);
+    // x = fl + q/p
+    BQ { n: &fl * &y.n + &y.d, d: y.n }
+}
+
+/// simplest fraction in the interval (lo < hi, or lo == hi with both ends closed)
+fn fast_simplest(lo: &BQ, hi: &BQ, il: bool, ih: bool) -> BQ {
+    let zero = BQ { n: BigInt::zero(), d: BigInt::one() };
+    if zero.within(lo, hi, il, ih) {
+        return zero;
+    }
+    if !hi.n.is_positive() {
+        pos_simplest(&hi.neg(), Some(&lo.neg()), ih, il).neg()
+    } else {
+        pos_simplest(lo, Some(hi), il, ih)
+    }
+}
+
+// ---------------------------------------------------------------------------------------------
+// dashu <-> reference
+
+fn to_rbig(q: &BQ) -> RBig {
+    RBig::from_parts(ref_to_i(&q.n), ref_to_u(q.d.magnitude()))
+}
+
+fn from_rbig(r: &RBig) -> BQ {
+    BQ { n: i_to_ref(r.numerator()), d: BigInt::from(u_to_ref(r.denominator())) }
+}
+
+fn panic_kind(p: &str) -> &'static str {
+    if is_internal_panic(p) {
+        "internal-panic"
+    } else {
+        "panic"
+    }
+}
+
+// ---------------------------------------------------------------------------------------------
+// Farey neighbours by scanning every denominator <= limit
+
+fn farey_up(x: &Q, limit: i128) -> Q {
+    let mut best: Option<Q> = None;
+    for d in 1..=limit {
+        let c = Q::new(div_floor(mul(x.n, d), x.d) + 1, d);
+        if best.map_or(true, |b| c.lt(&b)) {
+            best = Some(c);
+        }
+    }
+    best.unwrap()
+}
+
+fn farey_down(x: &Q, limit: i128) -> Q {
+    let mut best: Option<Q> = None;
+    for d in 1..=limit {
+        let c = Q::new(div_ceil(mul(x.n, d), x.d) - 1, d);
+        if best.map_or(true, |b| b.lt(&c)) {
+            best = Some(c);
+        }
+    }
+    best.unwrap()
+}
+
+// ---------------------------------------------------------------------------------------------
+// the documented simplicity order
+
+fn simpler(a: &Q, b: &Q) -> bool {
+    // smaller denominator first, then smaller numerator magnitude, then positive before negative
+    (a.d, a.n.abs(), a.n < 0) < (b.d, b.n.abs(), b.n < 0)
+}
+
+// ---------------------------------------------------------------------------------------------
+// IEEE binary formats: decoding and the round-to-nearest-even interval of a finite value
+
+#[derive(Clone, Copy)]
+struct Fmt {
+    name: &'static str,
+    mbits: u32, // significand bits including the hidden one
+    ebits: u32,
+}
+const F32: Fmt = Fmt { name: "f32", mbits: 24, ebits: 8 };
+const F64: Fmt = Fmt { name: "f64", mbits: 53, ebits: 11 };
+
+enum Dec {
+    Nan,
+    Inf,
+    Fin { neg: bool, m: u64, e: i64 }, // value = (-1)^neg * m * 2^e
+}
+
+impl Fmt {
+    fn bias(&self) -> i64 {
+        (1i64 << (self.ebits - 1)) - 1
+    }
+    fn emin(&self) -> i64 {
+        1 - self.bias() - (self.mbits as i64 - 1)
+    }
+    fn decode(&self, bits: u64) -> Dec {
+        let fb = self.mbits - 1;
+        let frac = bits & ((1u64 << fb) - 1);
+        let ex = ((bits >> fb) & ((1u64 << self.ebits) - 1)) as i64;
+        let neg = (bits >> (fb + self.ebits)) & 1 == 1;
+        if ex == (1i64 << self.ebits) - 1 {
+            return if frac == 0 { Dec::Inf } else { Dec::Nan };
+        }
+        if ex == 0 {
+            Dec::Fin { neg, m: frac, e: self.emin() }
+        } else {
+            Dec::Fin { neg, m: frac | (1u64 << fb), e: ex - self.bias() - fb as i64 }
+        }
+    }
+    /// rounding interval of the positive value m * 2^e (m != 0): the mid points to the two
+    /// neighbouring values of the format; both ends belong to it iff m is even (ties to even).
+    /// Below a power of two the spacing halves, so the lower mid point is closer.
+    fn interval(&self, m: u64, e: i64) -> (BQ, BQ, bool) {
+        let k = |c: BigInt, e2: i64| -> BQ {
+            if e2 >= 0 {
+                BQ::new(c << (e2 as usize), BigInt::one())
+            } else {
+                BQ::new(c, BigInt::one() << ((-e2) as usize))
+            }
+        };
+        let m_b = BigInt::from(m);
+        let lo = if m == 1u64 << (self.mbits - 1) && e > self.emin() { k(&m_b * 4 - 1, e - 2) } else { k(&m_b * 2 - 1, e - 1) };
+        let hi = k(&m_b * 2 + 1, e - 1);
+        (lo, hi, m % 2 == 0)
+    }
+}
+
+// ---------------------------------------------------------------------------------------------
+// refround: the six rounding modes on an exact fraction (from the mode descriptions in
+// float/src/round.rs docs: toward 0, away from 0, toward +inf, toward -inf, nearest ties-even,
+// nearest ties-away).  Returns the rounded value with `p` significant base-`b` digits.
+
+const MODES: [&str; 6] = ["Zero", "Away", "Down", "Up", "HalfAway", "HalfEven"];
+
+fn refround(x: &Q, b: i128, p: u32, mode: usize) -> Q {
+    if x.n == 0 {
+        return Q::int(0);
+    }
+    let neg = x.n < 0;
+    let (mut num, mut den) = (x.n.abs(), x.d);
+    let (hi, lo) = (b.pow(p), b.pow(p - 1));
+    let mut e: i32 = 0;
+    // scale so that lo <= num/den < hi
+    while num >= mul(den, hi) {
+        den = mul(den, b);
+        e += 1;
+    }
+    while num < mul(den, lo) {
+        num = mul(num, b);
+        e -= 1;
+    }
+    let (q, r) = (num / den, num % den);
+    let up = if r == 0 {
+        false
+    } else {
+        match mode {
+            0 => false,
+            1 => true,
+            2 => neg,
+            3 => !neg,
+            4 => 2 * r >= den,
+            5 => 2 * r > den || 2 * r == den && q % 2 == 1,
+            _ => unreachable!(),
+        }
+    };
+    let q = if up { q + 1 } else { q };
+    let v = if e >= 0 { Q::new(mul(q, b.pow(e as u32)), 1) } else { Q::new(q, b.pow((-e) as u32)) };
+    if neg {
+        v.neg()
+    } else {
+        v
+    }
+}
+
+/// simplest fraction among those that `refround` maps to f (f has <= p digits, so f itself does):
+/// denominators ascending, for each denominator every numerator within +-2 ulp of f is converted.
+fn brute_round_simplest(f: &Q, ulp: &Q, b: i128, p: u32, mode: usize) -> Q {
+    let w = Q::new(mul(ulp.n, 2), ulp.d);
+    let (lo, hi) = (f.sub(&w), f.add(&w));
+    for d in 1..=f.d {
+        let nlo = div_floor(mul(lo.n, d), lo.d);
+        let nhi = div_ceil(mul(hi.n, d), hi.d);
+        let mut best: Option<i128> = None;
+        for n in nlo..=nhi {
+            if refround(&Q::new(n, d), b, p, mode) == *f && best.map_or(true, |m| (n.abs(), n < 0) < (m.abs(), m < 0)) {
+                best = Some(n);
+            }
+        }
+        if let Some(n) = best {
+            return Q::new(n, d);
+        }
+    }
+    unreachable!("f itself converts back to f")
+}
+
+// ---------------------------------------------------------------------------------------------
+// dashu calls for FBig<R, B>
+
+fn sff<R: ErrorBounds, const B: Word>(s: &BigInt, e: isize, p: usize, inf: Option<bool>) -> Result<Option<RBig>, String> {
+    let repr = match inf {
+        Some(false) => Repr::<B>::infinity(),
+        Some(true) => Repr::<B>::neg_infinity(),
+        None => Repr::<B>::new(ref_to_i(s), e),
+    };
+    guard(|| {
+        let f = FBig::<R, B>::from_repr(repr, Context::<R>::new(p));
+        RBig::simplest_from_float(&f)
+    })
+}
+
+/// Informational only (never a verdict): does dashu's own correctly rounded conversion
+/// `RBig::to_float(p)` take `q` to s * B^e?  Ties the reference `refround` to the library's rounding.
+fn tff<R: ErrorBounds, const B: Word>(s: &BigInt, e: isize, p: usize, q: &RBig) -> Result<bool, String> {
+    guard(|| q.to_float::<R, B>(p).value().into_repr() == Repr::<B>::new(ref_to_i(s), e))
+}
+
+macro_rules! by_base_mode {
+    ($base:expr, $m:expr, $f:ident, $($a:expr),*) => {{
+        macro_rules! by_mode {
+            ($b:literal) => {
+                match $m {
+                    0 => $f::<mode::Zero, $b>($($a),*),
+                    1 => $f::<mode::Away, $b>($($a),*),
+                    2 => $f::<mode::Down, $b>($($a),*),
+                    3 => $f::<mode::Up, $b>($($a),*),
+                    4 => $f::<mode::HalfAway, $b>($($a),*),
+                    _ => $f::<mode::HalfEven, $b>($($a),*),
+                }
+            };
+        }
+        match $base {
+            2 => by_mode!(2),
+            3 => by_mode!(3),
+            10 => by_mode!(10),
+            16 => by_mode!(16),
+            _ => panic!("base {} not instantiated", $base),
+        }
+    }};
+}
+
+fn call_float(base: u32, m: usize, s: &BigInt, e: isize, p: usize, inf: Option<bool>) -> Result<Option<RBig>, String> {
+    by_base_mode!(base, m, sff, s, e, p, inf)
+}
+
+fn probe_to_float(base: u32, m: usize, s: &BigInt, e: isize, p: usize, q: &RBig) -> Result<bool, String> {
+    by_base_mode!(base, m, tff, s, e, p, q)
+}
+
+// ---------------------------------------------------------------------------------------------
+// one IEEE case (shared by the f32 and f64 sweeps)
+
+fn ieee_case(rec: &mut Rec, fmt: &Fmt, bits: u64, got: Result<Option<RBig>, String>, scan_max: i128) {
+    let site = if fmt.mbits == 24 { "RBig::simplest_from_f32" } else { "RBig::simplest_from_f64" };
+    let case = || format!("{} bits {:#x}", fmt.name, bits);
+    rec.step();
+    let (neg, m, e) = match fmt.decode(bits) {
+        Dec::Nan | Dec::Inf => {
+            rec.hit("nan-or-inf");
+            match got {
+                Ok(None) => {}
+                Ok(Some(r)) => rec.fail(format!("{}|{}|wrong-value|nan-or-inf", P, site), case(), format!("Some({})", from_rbig(&r).show()), "None"),
+                Err(p) => rec.fail(format!("{}|{}|{}|nan-or-inf", P, site, panic_kind(&p)), case(), p, "None"),
+            }
+            return;
+        }
+        Dec::Fin { neg, m, e } => (neg, m, e),
+    };
+    let mclass = if m == 0 {
+        "zero"
+    } else if m < 1u64 << (fmt.mbits - 1) {
+        if m % 2 == 0 {
+            "subnormal-even"
+        } else {
+            "subnormal-odd"
+        }
+    } else if m == 1u64 << (fmt.mbits - 1) {
+        "pow2"
+    } else if m % 2 == 0 {
+        "even"
+    } else {
+        "odd"
+    };
+    let eclass = if e > 0 {
+        "ulp>1"
+    } else if e == 0 {
+        "ulp=1"
+    } else {
+        "ulp<1"
+    };
+    let class = if m == 0 { "zero".to_string() } else { format!("{},{}", eclass, mclass) };
+    rec.hit(&format!("significand:{}", mclass));
+    if m != 0 {
+        rec.hit(eclass);
+    }
+    // expected value
+    let (want, lo, hi, incl) = if m == 0 {
+        let z = BQ { n: BigInt::zero(), d: BigInt::one() };
+        (z.clone(), z.clone(), z, true)
+    } else {
+        rec.nontrivial();
+        let (lo, hi, incl) = fmt.interval(m, e);
+        let (lo, hi) = if neg { (hi.neg(), lo.neg()) } else { (lo, hi) };
+        let fast = fast_simplest(&lo, &hi, incl, incl);
+        // the scan, where it is feasible: end points must leave room for the products in i128
+        let fits = |q: &BQ| q.n.bits() <= 90 && q.d.bits() <= 100;
+        if fits(&lo) && fits(&hi) {
+            match brute_simplest(&lo.small().unwrap(), &hi.small().unwrap(), incl, incl, scan_max) {
+                Some(b) => {
+                    rec.hit("oracle:scan+fast");
+                    if b.big() != fast {
+                        rec.hit("ref-disagree");
+                    }
+                }
+                None => rec.hit("oracle:fast-only(scan gave up)"),
+            }
+        } else {
+            rec.hit("oracle:fast-only(end points too large)");
+        }
+        if incl && (fast == lo || fast == hi) {
+            rec.hit("expected-is-closed-end-point");
+        }
+        (fast, lo, hi, incl)
+    };
+    match got {
+        Ok(Some(r)) => {
+            let o = from_rbig(&r);
+            if o != want {
+                let kind = if o.within(&lo, &hi, incl, incl) { "not-simplest" } else { "does-not-round-back" };
+                rec.fail(
+                    format!("{}|{}|{}|{}", P, site, kind, class),
+                    format!("{} = {}{} * 2^{} (rounding interval {}{}, {}{})", case(), if neg { "-" } else { "" }, m, e, if incl { "[" } else { "(" }, lo.show(), hi.show(), if incl { "]" } else { ")" }),
+                    format!("Some({})", o.show()),
+                    format!("Some({})", want.show()),
+                );
+            }
+        }
+        Ok(None) => rec.fail(format!("{}|{}|wrong-value|{}", P, site, class), case(), "None", format!("Some({})", want.show())),
+        Err(p) => rec.fail(format!("{}|{}|{}|{}", P, site, panic_kind(&p), class), case(), p, format!("Some({})", want.show())),
+    }
+}
+
+fn digits_of(mut s: i128, b: i128) -> u32 {
+    let mut k = 0;
+    s = s.abs();
+    while s > 0 {
+        s /= b;
+        k += 1;
+    }
+    k
+}
+
+fn bpow(b: i128, e: i32) -> Q {
+    if e >= 0 {
+        Q::int(b.pow(e as u32))
+    } else {
+        Q::new(1, b.pow((-e) as u32))
+    }
+}
+
+// ---------------------------------------------------------------------------------------------
+
+fn self_check(ctx: &mut Ctx) {
+    // 1. fast reference == scan on every interval over Q(7,7), all four open/closed combinations,
+    //    plus degenerate closed intervals
+    let u = qset(7, 7);
+    let mut n = 0u64;
+    for a in &u {
+        for b in &u {
+            if !a.lt(b) {
+                continue;
+            }
+            for fl in 0..4 {
+                let (il, ih) = (fl & 1 == 1, fl & 2 == 2);
+                let s = brute_simplest(a, b, il, ih, a.d + b.d + 1);
+                let f = fast_simplest(&a.big(), &b.big(), il, ih);
+                n += 1;
+                if s.map(|s| s.big()) != Some(f.clone()) {
+                    ctx.machinery(format!("reference self-check: scan {:?} != fast {} on {}{}, {}{}", s, f.show(), if il { "[" } else { "(" }, a.show(), b.show(), if ih { "]" } else { ")" }));
+                    return;
+                }
+                // and the result is inside, and nothing simpler (by the documented order) is
+                let s = s.unwrap();
+                for c in &u {
+                    let inside = c.big().within(&a.big(), &b.big(), il, ih);
+                    if inside && simpler(c, &s) {
+                        ctx.machinery(format!("reference self-check: {} is inside and simpler than {}", c.show(), s.show()));
+                        return;
+                    }
+                }
+            }
+        }
+        if fast_simplest(&a.big(), &a.big(), true, true) != a.big() {
+            ctx.machinery("reference self-check: degenerate interval".to_string());
+        }
+    }
+    // 2. Farey scan: neighbours satisfy b*c - a*d = 1 and agree with the sorted list of all fractions
+    for lim in 1..=9i128 {
+        let mut all: Vec<Q> = vec![];
+        for d in 1..=lim {
+            for nn in -3 * d..=3 * d {
+                if gcd128(nn, d) == 1 {
+                    all.push(Q { n: nn, d });
+                }
+            }
+        }
+        all.sort_by(|a, b| a.cmp(b));
+        for x in qset(9, 11).iter().filter(|x| x.n.abs() < 2 * x.d) {
+            let (dn, up) = (farey_down(x, lim), farey_up(x, lim));
+            let l = all.iter().rev().find(|c| c.lt(x)).unwrap();
+            let r = all.iter().find(|c| x.lt(c)).unwrap();
+            n += 1;
+            let adjacent = if x.d <= lim { true } else { up.n * dn.d - dn.n * up.d == 1 };
+            if *l != dn || *r != up || !adjacent {
+                ctx.machinery(format!("reference self-check: Farey neighbours of {} order {}: {} {} vs {} {}", x.show(), lim, dn.show(), up.show(), l.show(), r.show()));
+                return;
+            }
+        }
+    }
+    // 3. IEEE interval against the hardware f64 -> f32 cast (correctly rounded, ties to even)
+    let to_f64 = |q: &BQ| -> f64 {
+        // end points are c * 2^j with c < 2^27: exact in f64
+        let c = q.n.to_f64().unwrap();
+        let d = q.d.to_f64().unwrap();
+        c / d
+    };
+    let mut pats: Vec<u32> = vec![];
+    for ex in [0u32, 1, 2, 3, 100, 126, 127, 128, 150, 151, 152, 200, 253, 254] {
+        for fr in [0u32, 1, 2, 3, 0x400000, 0x7FFFFE, 0x7FFFFF, 0x2AAAAA, 0x555555] {
+            pats.push(ex << 23 | fr);
+        }
+    }
+    for bits in pats {
+        if let Dec::Fin { m, e, .. } = F32.decode(bits as u64) {
+            if m == 0 {
+                continue;
+            }
+            let x = f32::from_bits(bits);
+            // the decoder itself
+            if (m as f64) * 2f64.powi(e as i32) != x as f64 {
+                ctx.machinery(format!("reference self-check: decode of f32 {:#x}", bits));
+                return;
+            }
+            let (lo, hi, incl) = F32.interval(m, e);
+            let (l, h) = (to_f64(&lo), to_f64(&hi));
+            let l_in = f64::from_bits(l.to_bits() + 1);
+            let l_out = f64::from_bits(l.to_bits() - 1);
+            let h_in = f64::from_bits(h.to_bits() - 1);
+            let h_out = f64::from_bits(h.to_bits() + 1);
+            n += 1;
+            let ok = ((l as f32 == x) == incl) && ((h as f32 == x) == incl) && l_in as f32 == x && h_in as f32 == x && l_out as f32 != x && h_out as f32 != x;
+            if !ok {
+                ctx.machinery(format!("reference self-check: IEEE interval of f32 {:#x} disagrees with the hardware cast", bits));
+                return;
+            }
+        }
+    }
+    // 4. refround: literal table written from the mode descriptions, and nearest-even against the
+    //    hardware integer -> f32 cast
+    let t: [(i128, i128, i128, u32, usize, i128, i128); 16] = [
+        (125, 10, 10, 2, 5, 12, 1),
+        (135, 10, 10, 2, 5, 14, 1),
+        (125, 10, 10, 2, 4, 13, 1),
+        (-125, 10, 10, 2, 4, -13, 1),
+        (-125, 10, 10, 2, 5, -12, 1),
+        (-19, 10, 10, 1, 0, -1, 1),
+        (-19, 10, 10, 1, 1, -2, 1),
+        (-19, 10, 10, 1, 2, -2, 1),
+        (-19, 10, 10, 1, 3, -1, 1),
+        (19, 10, 10, 1, 2, 1, 1),
+        (19, 10, 10, 1, 3, 2, 1),
+        (999, 1, 10, 2, 1, 1000, 1),
+        (1, 3, 10, 3, 5, 333, 1000),
+        (2, 3, 2, 3, 5, 5, 8),
+        (7, 2, 3, 1, 4, 3, 1),
+        (12345, 1, 10, 2, 0, 12000, 1),
+    ];
+    for (nn, dd, b, p, m, wn, wd) in t {
+        n += 1;
+        if refround(&Q::new(nn, dd), b, p, m) != Q::new(wn, wd) {
+            ctx.machinery(format!("reference self-check: refround({}/{}, base {}, {} digits, {})", nn, dd, b, p, MODES[m]));
+            return;
+        }
+    }
+    for k in 0..200i128 {
+        for base in [1i128 << 24, 1 << 25, (1 << 26) - 100, 123456789] {
+            let v = base + k;
+            n += 1;
+            if refround(&Q::int(v), 2, 24, 5) != Q::int((v as f32) as i128) {
+                ctx.machinery(format!("reference self-check: refround({}, 2, 24, HalfEven) vs hardware cast", v));
+                return;
+            }
+        }
+    }
+    ctx.bound("reference_self_check_comparisons", n);
+}
+
+fn check_ref_agreement(ctx: &mut Ctx, sweep: &str) {
+    let bad = ctx.sweeps.iter().find(|s| s.name == sweep).and_then(|s| s.classes.get("ref-disagree").copied()).unwrap_or(0);
+    if bad != 0 {
+        ctx.machinery(format!("sweep {}: the scan and the continued-fraction reference disagree on {} cases", sweep, bad));
+    }
+}
 
 pub fn run(ctx: &mut Ctx) {
-    ctx.machinery("check C18 is not built yet");
+    ctx.rule = "closed universes walked completely: simplest_in on all ordered pairs (l, u) of Q(N,N) (reduced n/d, |n| <= N, d <= N; includes equal, swapped, negative, sign-straddling, zero and integer end points) plus multi-word end points; next_up/next_down/nearest on every x in Q(M,M) and x +- 1/997 with every limit 1..L and limits around 997; is_simpler_than on all ordered pairs of Q(K,K); simplest_from_f32/f64 on every float of a bit-pattern grid (sign x exponent x significand patterns incl. NaN/inf/zero/subnormal/powers of two/odd+even significands/values >= 2^24 resp. 2^53) and on all f32 (f64) in [2^-8, 2^8) ([2^-4, 2^4)) with <= 12 (8) significand bits and all f64 n/d, |n|,d <= D; simplest_from_float on every FBig s*B^e (|s| < B^P, B not dividing s, |e| <= E) x 6 rounding modes x precisions {digits, digits+2}, plus zero/infinite/unlimited-precision values. non-trivial = the answer is not forced by a shortcut (l != u and 0 not inside; denominator > limit or a neighbour is asked; floats: finite non-zero)".into();
+    ctx.assume("simplicity order as documented at RBig::simplest_in: smaller denominator, then smaller |numerator|, then positive; inside an interval the first two criteria already single out one fraction");
+    ctx.assume("nearest: the returned sign is sign(result - self), as in the doc example and rational/tests/simplify.rs (the prose says 'self - self.nearest()'); an exact tie between the two neighbours is not specified: either neighbour with its own sign is accepted");
+    ctx.assume("simplest_from_f32/f64: a fraction 'converts back' iff it lies in the IEEE round-to-nearest-even interval of the value (mid points to both neighbouring floats, closed iff the significand is even; lower mid point at 1/4 ulp below powers of two)");
+    ctx.assume("simplest_from_float: a fraction converts back iff rounding it to the float's precision (digits of the context; unlimited precision: only the value itself) in the float's rounding mode gives the float");
+    ctx.assume("limit = 0 (documented nowhere, panics) is outside the property's quantifier (limits >= 1) and not enumerated");
+    ctx.assume("histogram classes 'info:dashu to_float(expected) ...' are informational (no verdict): they compare the reference rounding `refround` with dashu's own RBig::to_float on the expected fraction; the few '!=' cases are double roundings inside RBig::to_float (e.g. 7/3 -> 2.5 at 4 bits, 5/11 -> 0.46 at 2 digits), which belong to C06");
+    self_check(ctx);
+
+    // ------------------------------------------------------------------ simplest_in, closed
+    let nq = ctx.pick(12, 40);
+    ctx.bound("simplest_in_Q(N,N)", nq as u64);
+    let u = qset(nq, nq);
+    let n = u.len() as u64;
+    let ur = &u;
+    ctx.sweep("simplest_in.pairs", n * n, |i, rec| {
+        let (l, r) = (&ur[(i / n) as usize], &ur[(i % n) as usize]);
+        let (lo, hi) = if r.lt(l) { (r, l) } else { (l, r) };
+        let class = if lo == hi {
+            "equal"
+        } else if lo.n < 0 && hi.n > 0 {
+            "straddle"
+        } else if lo.n == 0 {
+            "zero-lower-end"
+        } else if hi.n == 0 {
+            "zero-upper-end"
+        } else if lo.n > 0 {
+            "positive"
+        } else {
+            "negative"
+        };
+        rec.hit(class);
+        if r.lt(l) {
+            rec.hit("swapped");
+        }
+        if lo != hi && lo.d == 1 && hi.d == 1 {
+            rec.hit("integer-end-points");
+        }
+        if lo != hi && !(lo.n < 0 && hi.n > 0) {
+            rec.nontrivial();
+        }
+        let want = if lo == hi {
+            *lo
+        } else {
+            let w = brute_simplest(lo, hi, false, false, lo.d + hi.d).expect("the mediant is inside");
+            if fast_simplest(&lo.big(), &hi.big(), false, false) != w.big() {
+                rec.hit("ref-disagree");
+            }
+            w
+        };
+        rec.hit(if want.d == 1 { "result-integer" } else if want.d > lo.d.max(hi.d) { "result-den-above-both" } else { "result-den-between" });
+        let (a, b) = (to_rbig(&l.big()), to_rbig(&r.big()));
+        let got = guard(|| RBig::simplest_in(a, b));
+        let case = || format!("simplest_in({}, {})", l.show(), r.show());
+        rec.step();
+        match got {
+            Ok(g) => {
+                let o = from_rbig(&g);
+                if o != want.big() {
+                    let inside = if lo == hi { o == lo.big() } else { o.within(&lo.big(), &hi.big(), false, false) };
+                    rec.fail(format!("{}|RBig::simplest_in|{}|{}", P, if inside { "not-simplest" } else { "not-in-interval" }, class), case(), o.show(), want.show());
+                }
+            }
+            Err(p) => rec.fail(format!("{}|RBig::simplest_in|{}|{}", P, panic_kind(&p), class), case(), p, want.show()),
+        }
+        rec.sample(|| format!("{} -> {}", case(), want.show()));
+    });
+    ctx.require_classes("simplest_in.pairs", &["equal", "straddle", "zero-lower-end", "zero-upper-end", "positive", "negative", "swapped", "integer-end-points", "result-integer", "result-den-above-both", "result-den-between"]);
+    check_ref_agreement(ctx, "simplest_in.pairs");
+
+    // ------------------------------------------------------------------ simplest_in, multi-word end points
+    let lens: Vec<usize> = ctx.pick(vec![1, 2, 3, 5], vec![1, 2, 3, 4, 5, 8, 24, 40]);
+    let pats = ["ones", "top1p1", "alt", "lcgA", "lcgSeed"];
+    ctx.bound("simplest_in_big_lengths_words", serde_json::json!(lens));
+    let mut bigs: Vec<(BQ, BQ, String)> = vec![];
+    for &len in &lens {
+        for pat in pats {
+            let q = BigInt::from(shape(len, pat, ctx.seed));
+            let p = BigInt::from(shape(len, "lcgB", ctx.seed)) | BigInt::one();
+            let x = BQ::new(p.clone(), q.clone());
+            // (x, x + 1/(q*k)) for several k, a wide interval, and a pair of near-equal neighbours
+            for (k, name) in [(BigInt::one(), "k=1"), (BigInt::from(3u8), "k=3"), (BigInt::from(3u8) << 64usize, "k=3*2^64"), (BigInt::from(shape(len + 1, "lcgA", ctx.seed)), "k=len+1 words")] {
+                let y = BQ::new(&x.n * &k + 1, &x.d * &k);
+                bigs.push((x.clone(), y, format!("{}w {} {}", len, pat, name)));
+            }
+            bigs.push((x.clone(), BQ::new(&p + 1, &q + 1), format!("{}w {} (p+1)/(q+1)", len, pat)));
+            bigs.push((x.clone(), BQ::new(&p + 1, q.clone()), format!("{}w {} (p+1)/q", len, pat)));
+        }
+    }
+    let nb = bigs.len() as u64;
+    let br = &bigs;
+    ctx.sweep("simplest_in.multiword", nb * 4, |i, rec| {
+        let [bi, neg, swap] = unflatten(i, [nb, 2, 2]);
+        let (x, y, name) = &br[bi];
+        if x == y {
+            return;
+        }
+        let (x, y) = if neg == 1 { (x.neg(), y.neg()) } else { (x.clone(), y.clone()) };
+        let (l, r) = if swap == 1 { (y.clone(), x.clone()) } else { (x.clone(), y.clone()) };
+        let (lo, hi) = if x.cmp(&y) == Ordering::Less { (x, y) } else { (y, x) };
+        let want = fast_simplest(&lo, &hi, false, false);
+        rec.nontrivial();
+        rec.hit(if neg == 1 { "negative" } else { "positive" });
+        rec.hit(if want.d.bits() > 64 { "result-multiword" } else { "result-one-word" });
+        let (a, b) = (to_rbig(&l), to_rbig(&r));
+        let got = guard(|| RBig::simplest_in(a, b));
+        let case = || format!("simplest_in({}, {}) [{}]", l.show(), r.show(), name);
+        let class = format!("multiword,{}", if neg == 1 { "negative" } else { "positive" });
+        rec.step();
+        match got {
+            Ok(g) => {
+                let o = from_rbig(&g);
+                if o != want {
+                    let inside = o.within(&lo, &hi, false, false);
+                    rec.fail(format!("{}|RBig::simplest_in|{}|{}", P, if inside { "not-simplest" } else { "not-in-interval" }, class), case(), o.show(), want.show());
+                }
+            }
+            Err(p) => rec.fail(format!("{}|RBig::simplest_in|{}|{}", P, panic_kind(&p), class), case(), p, want.show()),
+        }
+        rec.sample(|| format!("{} -> {}", case(), want.show()));
+    });
+    ctx.require_classes("simplest_in.multiword", &["negative", "positive", "result-multiword", "result-one-word"]);
+
+    // ------------------------------------------------------------------ Farey neighbours
+    let mq = ctx.pick(12, 32);
+    let lmax: i128 = ctx.pick(14, 48);
+    ctx.bound("farey_Q(M,M)", mq as u64);
+    ctx.bound("farey_limits", format!("1..={} and 996, 997, 998, 2000, 12000", lmax));
+    let mut xs: Vec<Q> = vec![];
+    for x in qset(mq, mq) {
+        xs.push(x);
+        xs.push(x.add(&Q::new(1, 997)));
+        xs.push(x.sub(&Q::new(1, 997)));
+    }
+    let mut limits: Vec<i128> = (1..=lmax).collect();
+    limits.extend([996, 997, 998, 2000, 12000]);
+    let (nx, nl) = (xs.len() as u64, limits.len() as u64);
+    let (xr, lr) = (&xs, &limits);
+    ctx.sweep("farey.next_up,next_down,nearest", nx * nl, |i, rec| {
+        let (x, lim) = (&xr[(i / nl) as usize], lr[(i % nl) as usize]);
+        let fits = x.d <= lim;
+        let class = format!("{},{}", if lim == 1 { "limit=1" } else { "limit>1" }, if fits { "den<=limit" } else { "den>limit" });
+        rec.hit(&class);
+        rec.hit(if x.n < 0 { "x-negative" } else if x.n == 0 { "x-zero" } else { "x-positive" });
+        if x.d == 1 {
+            rec.hit("x-integer");
+        }
+        rec.nontrivial();
+        let (up, down) = (farey_up(x, lim), farey_down(x, lim));
+        let rx = to_rbig(&x.big());
+        let rl = ref_to_u(BigInt::from(lim).magnitude());
+        let case = |f: &str| format!("({}).{}(limit {})", x.show(), f, lim);
+        for (name, want) in [("next_up", &up), ("next_down", &down)] {
+            let got = guard(|| if name == "next_up" { rx.next_up(&rl) } else { rx.next_down(&rl) });
+            rec.step();
+            match got {
+                Ok(g) => {
+                    let o = from_rbig(&g);
+                    if o != want.big() {
+                        rec.fail(format!("{}|RBig::{}|wrong-value|{}", P, name, class), case(name), o.show(), want.show());
+                    }
+                }
+                Err(p) => rec.fail(format!("{}|RBig::{}|{}|{}", P, name, panic_kind(&p), class), case(name), p, want.show()),
+            }
+        }
+        // nearest
+        let got = guard(|| rx.nearest(&rl));
+        rec.step();
+        let show = |a: &Approximation<RBig, Sign>| match a {
+            Approximation::Exact(v) => format!("Exact({})", from_rbig(v).show()),
+            Approximation::Inexact(v, s) => format!("Inexact({}, {:?})", from_rbig(v).show(), s),
+        };
+        let want_txt;
+        let ok;
+        match &got {
+            Err(_) => {
+                ok = false;
+                want_txt = "a value".to_string();
+            }
+            Ok(g) => {
+                if fits {
+                    rec.hit("nearest-exact");
+                    want_txt = format!("Exact({})", x.show());
+                    ok = matches!(g, Approximation::Exact(v) if from_rbig(v) == x.big());
+                } else {
+                    let (du, dd) = (up.sub(x), x.sub(&down));
+                    let is_up = matches!(g, Approximation::Inexact(v, Sign::Positive) if from_rbig(v) == up.big());
+                    let is_down = matches!(g, Approximation::Inexact(v, Sign::Negative) if from_rbig(v) == down.big());
+                    match du.cmp(&dd) {
+                        Ordering::Less => {
+                            rec.hit("nearest-up");
+                            want_txt = format!("Inexact({}, Positive)", up.show());
+                            ok = is_up;
+                        }
+                        Ordering::Greater => {
+                            rec.hit("nearest-down");
+                            want_txt = format!("Inexact({}, Negative)", down.show());
+                            ok = is_down;
+                        }
+                        Ordering::Equal => {
+                            rec.hit("unspecified:nearest-tie");
+                            want_txt = format!("Inexact({}, Negative) or Inexact({}, Positive)", down.show(), up.show());
+                            ok = is_up || is_down;
+                        }
+                    }
+                }
+            }
+        }
+        match &got {
+            Ok(g) => {
+                if !ok {
+                    let kind = match g {
+                        Approximation::Exact(_) => "wrong-value",
+                        Approximation::Inexact(v, _) => {
+                            let o = from_rbig(v);
+                            if !fits && (o == up.big() || o == down.big()) {
+                                "wrong-flag"
+                            } else {
+                                "wrong-value"
+                            }
+                        }
+                    };
+                    rec.fail(format!("{}|RBig::nearest|{}|{}", P, kind, class), case("nearest"), show(g), want_txt);
+                }
+            }
+            Err(p) => rec.fail(format!("{}|RBig::nearest|{}|{}", P, panic_kind(p), class), case("nearest"), p.clone(), want_txt),
+        }
+        rec.sample(|| format!("{}: order-{} neighbours {} < x < {}", x.show(), lim, down.show(), up.show()));
+    });
+    ctx.require_classes(
+        "farey.next_up,next_down,nearest",
+        &["limit=1,den<=limit", "limit=1,den>limit", "limit>1,den<=limit", "limit>1,den>limit", "x-negative", "x-zero", "x-positive", "x-integer", "nearest-exact", "nearest-up", "nearest-down", "unspecified:nearest-tie"],
+    );
+
+    // ------------------------------------------------------------------ is_simpler_than
+    let kq = ctx.pick(6, 20);
+    ctx.bound("is_simpler_than_Q(K,K)", kq as u64);
+    let sq = qset(kq, kq);
+    let ns = sq.len() as u64;
+    let sr = &sq;
+    ctx.sweep("is_simpler_than.pairs", ns * ns, |i, rec| {
+        let (a, b) = (&sr[(i / ns) as usize], &sr[(i % ns) as usize]);
+        let want = simpler(a, b);
+        let class = if a == b {
+            "identical"
+        } else if a.d != b.d {
+            if (a.d < b.d) == (a.n.abs() <= b.n.abs()) {
+                "den-differs,num-agrees"
+            } else {
+                "den-differs,num-opposes"
+            }
+        } else if a.n.abs() != b.n.abs() {
+            "den-equal,num-differs"
+        } else {
+            "only-sign-differs"
+        };
+        rec.hit(class);
+        rec.hit(if want { "simpler" } else { "not-simpler" });
+        if a != b {
+            rec.nontrivial();
+        }
+        let (ra, rb) = (to_rbig(&a.big()), to_rbig(&b.big()));
+        let got = guard(|| ra.is_simpler_than(&rb));
+        rec.step();
+        let case = || format!("({}).is_simpler_than({})", a.show(), b.show());
+        match got {
+            Ok(g) => {
+                if g != want {
+                    rec.fail(format!("{}|RBig::is_simpler_than|wrong-value|{},expected-{}", P, class, want), case(), g.to_string(), want.to_string());
+                }
+            }
+            Err(p) => rec.fail(format!("{}|RBig::is_simpler_than|{}|{}", P, panic_kind(&p), class), case(), p, want.to_string()),
+        }
+        rec.sample(|| format!("{} -> {}", case(), want));
+    });
+    ctx.require_classes("is_simpler_than.pairs", &["identical", "den-differs,num-agrees", "den-differs,num-opposes", "den-equal,num-differs", "only-sign-differs", "simpler", "not-simpler"]);
+
+    // ------------------------------------------------------------------ f32
+    let scan_max: i128 = ctx.pick(1 << 20, 1 << 22);
+    ctx.bound("float_scan_max_denominator", scan_max as u64);
+    // (a) all f32 with |x| in [2^-8, 2^8) whose significand has <= 12 bits
+    // quick: |x| in [2^-8, 2^8); thorough: [2^-14, 2^26) (reaches the integers with ulp > 1)
+    let (ex0, nex): (u32, u64) = ctx.pick((119, 16), (113, 40));
+    ctx.bound("f32_short_significand_exponents", format!("2^{} .. 2^{}", ex0 as i64 - 127, ex0 as i64 - 127 + nex as i64));
+    ctx.sweep("f32.short-significands", 2 * nex * 2048, |i, rec| {
+        let [sg, ex, hi11] = unflatten(i, [2, nex, 2048]);
+        let bits = (sg as u32) << 31 | (ex0 + ex as u32) << 23 | (hi11 as u32) << 12;
+        let f = f32::from_bits(bits);
+        let got = guard(|| RBig::simplest_from_f32(f));
+        ieee_case(rec, &F32, bits as u64, got, scan_max);
+        rec.sample(|| format!("simplest_from_f32({:?})", f));
+    });
+    ctx.require_classes("f32.short-significands", &["oracle:scan+fast", "significand:pow2", "significand:even", "ulp<1"]);
+    check_ref_agreement(ctx, "f32.short-significands");
+    // (b) bit-pattern grid: every exponent field (incl. 0 = subnormal/zero and 255 = inf/NaN)
+    let mut fr32: Vec<u32> = vec![0, 1, 2, 3, 4, 5, 6, 0x400000, 0x400001, 0x3FFFFF, 0x7FFFFE, 0x7FFFFF, 0x2AAAAA, 0x555555, 0x123456, 0x490FDB];
+    fr32.push((ctx.seed.wrapping_mul(0x9E37_79B9_7F4A_7C15) >> 41) as u32 & 0x7FFFFF);
+    let nf = fr32.len() as u64;
+    let fr = &fr32;
+    ctx.sweep("f32.pattern-grid", 2 * 256 * nf, |i, rec| {
+        let [sg, ex, fi] = unflatten(i, [2, 256, nf]);
+        let bits = (sg as u32) << 31 | (ex as u32) << 23 | fr[fi];
+        let f = f32::from_bits(bits);
+        let got = guard(|| RBig::simplest_from_f32(f));
+        ieee_case(rec, &F32, bits as u64, got, 1 << 12);
+        rec.sample(|| format!("simplest_from_f32({:?})", f));
+    });
+    ctx.require_classes(
+        "f32.pattern-grid",
+        &["nan-or-inf", "significand:zero", "significand:subnormal-even", "significand:subnormal-odd", "significand:pow2", "significand:even", "significand:odd", "ulp>1", "ulp=1", "ulp<1", "oracle:scan+fast", "expected-is-closed-end-point"],
+    );
+    check_ref_agreement(ctx, "f32.pattern-grid");
+
+    // ------------------------------------------------------------------ f64
+    // (a) n/d grid
+    let dn: u64 = ctx.pick(40, 150);
+    ctx.bound("f64_fraction_grid", dn);
+    ctx.sweep("f64.fractions", (2 * dn + 1) * dn, |i, rec| {
+        let n = (i / dn) as i64 - dn as i64;
+        let d = (i % dn) as i64 + 1;
+        let f = n as f64 / d as f64;
+        let got = guard(|| RBig::simplest_from_f64(f));
+        ieee_case(rec, &F64, f.to_bits(), got, 1 << 12);
+        rec.sample(|| format!("simplest_from_f64({}/{} = {:?})", n, d, f));
+    });
+    ctx.require_classes("f64.fractions", &["oracle:scan+fast", "significand:zero", "significand:pow2", "significand:even", "significand:odd"]);
+    check_ref_agreement(ctx, "f64.fractions");
+    // (b) short significands in [2^-4, 2^4)
+    ctx.sweep("f64.short-significands", 2 * 8 * 128, |i, rec| {
+        let [sg, ex, hi7] = unflatten(i, [2, 8, 128]);
+        let bits = (sg as u64) << 63 | (1019 + ex as u64) << 52 | (hi7 as u64) << 45;
+        let f = f64::from_bits(bits);
+        let got = guard(|| RBig::simplest_from_f64(f));
+        ieee_case(rec, &F64, bits, got, 1 << 12);
+        rec.sample(|| format!("simplest_from_f64({:?})", f));
+    });
+    ctx.require_classes("f64.short-significands", &["oracle:scan+fast"]);
+    check_ref_agreement(ctx, "f64.short-significands");
+    // (c) bit-pattern grid
+    let ex64: Vec<u64> = if ctx.quick() {
+        let mut v: Vec<u64> = vec![0, 1, 2, 3, 52, 53, 54, 500, 1000, 1040, 1100, 1125, 1500, 2000, 2045, 2046, 2047];
+        v.extend(1015..=1030);
+        v.extend(1070..=1090);
+        v.sort();
+        v
+    } else {
+        (0..=2047).collect()
+    };
+    ctx.bound("f64_exponent_fields", ex64.len() as u64);
+    let mut fr64: Vec<u64> = vec![0, 1, 2, 3, 4, 5, 6, 1 << 51, (1 << 51) + 1, (1 << 51) - 1, (1 << 52) - 2, (1 << 52) - 1, 0xAAAAAAAAAAAAA, 0x5555555555555, 0x123456789ABCD, 0x921FB54442D18];
+    fr64.push(ctx.seed.wrapping_mul(0x9E37_79B9_7F4A_7C15) >> 12);
+    let (ne, nf64) = (ex64.len() as u64, fr64.len() as u64);
+    let (er, fr) = (&ex64, &fr64);
+    ctx.sweep("f64.pattern-grid", 2 * ne * nf64, |i, rec| {
+        let [sg, ei, fi] = unflatten(i, [2, ne, nf64]);
+        let bits = (sg as u64) << 63 | er[ei] << 52 | fr[fi];
+        let f = f64::from_bits(bits);
+        let got = guard(|| RBig::simplest_from_f64(f));
+        ieee_case(rec, &F64, bits, got, 1 << 12);
+        rec.sample(|| format!("simplest_from_f64({:?})", f));
+    });
+    ctx.require_classes(
+        "f64.pattern-grid",
+        &["nan-or-inf", "significand:zero", "significand:subnormal-even", "significand:subnormal-odd", "significand:pow2", "significand:even", "significand:odd", "ulp>1", "ulp=1", "ulp<1", "oracle:scan+fast", "expected-is-closed-end-point"],
+    );
+    check_ref_agreement(ctx, "f64.pattern-grid");
+
+    // ------------------------------------------------------------------ FBig
+    // (base, P digits of significand, E exponent range)
+    let funi: Vec<(u32, u32, i32)> = ctx.pick(vec![(2, 4, 4), (10, 2, 3)], vec![(2, 6, 6), (10, 3, 3), (3, 3, 3), (16, 2, 2)]);
+    ctx.bound("fbig_universes(base,P,E)", serde_json::json!(funi));
+    let mut fvals: Vec<(u32, i128, i32)> = vec![];
+    for &(b, pd, er) in &funi {
+        let top = (b as i128).pow(pd);
+        for s in -(top - 1)..top {
+            if s % b as i128 == 0 {
+                continue;
+            }
+            for e in -er..=er {
+                fvals.push((b, s, e));
+            }
+        }
+    }
+    fvals.sort_by_key(|&(b, s, e)| (funi.iter().position(|u| u.0 == b), s.abs(), e.abs(), s < 0, e < 0));
+    let nv = fvals.len() as u64;
+    let fv = &fvals;
+    ctx.sweep("fbig.values x modes x precisions", nv * 6 * 2, |i, rec| {
+        let [vi, m, pk] = unflatten(i, [nv, 6, 2]);
+        let (b, s, e) = fv[vi];
+        let bb = b as i128;
+        let digits = digits_of(s, bb);
+        let p = digits + 2 * pk as u32;
+        let f = Q::new(s, 1);
+        let f = if e >= 0 { Q::new(mul(f.n, bb.pow(e as u32)), 1) } else { Q::new(s, bb.pow((-e) as u32)) };
+        let ulp = bpow(bb, e + digits as i32 - p as i32);
+        let want = brute_round_simplest(&f, &ulp, bb, p, m);
+        let pow = s.abs() == 1;
+        let class = format!("{},{}-base,{}", MODES[m], if b % 2 == 0 { "even" } else { "odd" }, if pow { "power-of-base" } else { "general" });
+        rec.hit(if pk == 0 { "p=digits" } else { "p>digits" });
+        rec.nontrivial();
+        rec.hit(MODES[m]);
+        rec.hit(if pow { "power-of-base" } else { "general" });
+        rec.hit(if want == f { "expected-is-f" } else { "expected-simpler-than-f" });
+        let got = call_float(b, m, &BigInt::from(s), e as isize, p as usize, None);
+        match probe_to_float(b, m, &BigInt::from(s), e as isize, p as usize, &to_rbig(&want.big())) {
+            Ok(true) => rec.hit("info:dashu to_float(expected) == f"),
+            Ok(false) => rec.hit("info:dashu to_float(expected) != f"),
+            Err(_) => rec.hit("info:dashu to_float(expected) panics"),
+        }
+        let case = || format!("simplest_from_float(FBig<{}, {}> {} * {}^{} = {}, precision {})", MODES[m], b, s, b, e, f.show(), p);
+        rec.step();
+        match got {
+            Ok(Some(g)) => {
+                let o = from_rbig(&g);
+                if o != want.big() {
+                    let back = o.small().map_or(false, |q| q.d < 1 << 40 && q.n.abs() < 1 << 60 && refround(&q, bb, p, m) == f);
+                    if back {
+                        rec.hit("fail:not-simplest");
+                    } else {
+                        rec.hit("fail:does-not-round-back");
+                    }
+                    rec.fail(format!("{}|RBig::simplest_from_float|{}|{}", P, if back { "not-simplest" } else { "does-not-round-back" }, class), case(), format!("Some({})", o.show()), format!("Some({})", want.show()));
+                }
+            }
+            Ok(None) => rec.fail(format!("{}|RBig::simplest_from_float|wrong-value|{}", P, class), case(), "None", format!("Some({})", want.show())),
+            Err(p) => rec.fail(format!("{}|RBig::simplest_from_float|{}|{}", P, panic_kind(&p), class), case(), p, format!("Some({})", want.show())),
+        }
+        rec.sample(|| format!("{} -> {}", case(), want.show()));
+    });
+    ctx.require_classes("fbig.values x modes x precisions", &["Zero", "Away", "Down", "Up", "HalfAway", "HalfEven", "power-of-base", "general", "expected-is-f", "expected-simpler-than-f"]);
+
+    // zero, infinities, unlimited precision
+    let bases: Vec<u32> = funi.iter().map(|x| x.0).collect();
+    let spec: Vec<(&str, i128, i32, usize, Option<bool>)> = vec![
+        ("zero", 0, 0, 1, None),
+        ("zero", 0, 0, 5, None),
+        ("zero-unlimited", 0, 0, 0, None),
+        ("infinite", 0, 0, 3, Some(false)),
+        ("infinite", 0, 0, 3, Some(true)),
+        ("infinite", 0, 0, 0, Some(false)),
+        ("unlimited-precision", 1, 0, 0, None),
+        ("unlimited-precision", -1, 0, 0, None),
+        ("unlimited-precision", 3, -2, 0, None),
+        ("unlimited-precision", -3, -2, 0, None),
+        ("unlimited-precision", 7, 2, 0, None),
+        ("unlimited-precision", -7, 1, 0, None),
+        ("unlimited-precision", 1, -3, 0, None),
+        ("unlimited-precision", 5, -1, 0, None),
+    ];
+    let (nbz, nsp) = (bases.len() as u64, spec.len() as u64);
+    let (bz, sp) = (&bases, &spec);
+    ctx.sweep("fbig.special", nbz * 6 * nsp, |i, rec| {
+        let [bi, m, si] = unflatten(i, [nbz, 6, nsp]);
+        let b = bz[bi];
+        let (kind, s, e, p, inf) = sp[si];
+        let bb = b as i128;
+        let want: Option<Q> = if inf.is_some() { None } else if e >= 0 { Some(Q::new(mul(s, bb.pow(e as u32)), 1)) } else { Some(Q::new(s, bb.pow((-e) as u32))) };
+        rec.hit(kind);
+        if kind == "unlimited-precision" {
+            rec.nontrivial();
+        }
+        let got = call_float(b, m, &BigInt::from(s), e as isize, p, inf);
+        let class = format!("{},{}", MODES[m], kind);
+        let case = || format!("simplest_from_float(FBig<{}, {}> {}, precision {})", MODES[m], b, if let Some(n) = inf { if n { "-inf".to_string() } else { "+inf".to_string() } } else { format!("{} * {}^{}", s, b, e) }, p);
+        let wt = want.map_or("None".to_string(), |w| format!("Some({})", w.show()));
+        rec.step();
+        match got {
+            Ok(g) => {
+                let o = g.as_ref().map(from_rbig);
+                if o != want.map(|w| w.big()) {
+                    rec.fail(format!("{}|RBig::simplest_from_float|wrong-value|{}", P, class), case(), o.map_or("None".to_string(), |o| format!("Some({})", o.show())), wt);
+                }
+            }
+            Err(p) => rec.fail(format!("{}|RBig::simplest_from_float|{}|{}", P, panic_kind(&p), class), case(), p, wt),
+        }
+        rec.sample(|| format!("{} -> {:?}", case(), want.map(|w| w.show())));
+    });
+    ctx.require_classes("fbig.special", &["zero", "zero-unlimited", "infinite", "unlimited-precision"]);
 }
